@@ -3,7 +3,7 @@
 import json, os
 HERE = os.path.dirname(os.path.dirname(os.path.abspath(__file__)))
 
-A = "Assumptions A1-A8 of DESIGN.md 3.7 (callbacks pure w.r.t. the DBFT instance, single goroutine, Start first, 64-bit int, go/types faithful, no forged own-index payloads)."
+A = "Assumptions A1-A6, A8 of DESIGN.md 3.7 (callbacks pure w.r.t. the DBFT instance and not re-entering it, single goroutine, Start first, 64-bit int, go/types faithful; A7 is withdrawn: a node may receive its own payloads back after a restart)."
 
 CLAIMED = {
 
@@ -39,7 +39,7 @@ CLAIMED = {
    note="Not decided: double deliveries, deliveries for a previous view's proposal beyond the rejection set, timing against the view timer. " + A, ref="4/C12"),
 
  "C09": dict(technique="sibling agreement (recovery builder/consumer), must-pass-through on enumerated paths",
-   text="Structural necessary conditions of recovery: the recovery message carries every evidence table (commits once the node has its own), the handler consumes every payload getter of the RecoveryMessage interface through OnReceive, LastChangeViewPayloads is refreshed on a view change from the table as it was before the reset cleared it, a ChangeView for a view not above the receiver's reaches the recovery-request handler, the responder window is F+1 consecutive indices after the requester modulo N, every admitted timeout says something or is an extension deferral and re-arms, a node with an own (pre)commit always answers a recovery request, each check function takes its step whenever its preconditions hold (M-PHASE-PROGRESS).",
+   text="Structural necessary conditions of recovery: the recovery message carries every evidence table (commits once the node has its own), the handler consumes every payload getter of the RecoveryMessage interface through OnReceive, LastChangeViewPayloads is refreshed on a view change from the table as it was before the reset cleared it, a ChangeView for a view not above the receiver's reaches the recovery-request handler, the responder window is F+1 consecutive indices after the requester modulo N, every admitted timeout says something or is an extension deferral and re-arms, a node with an own (pre)commit always answers a recovery request, a restarted primary does not answer its own recovered proposal (defect D14, fixed), a payload rebuilt from a recovery message is not handed on after the epoch it was rebuilt for changed, per-view state is dropped on every view change, each check function takes its step whenever its preconditions hold (M-PHASE-PROGRESS).",
    note="Progress, bounds on the deciding view, partitions and restarts need multi-node timed executions: not applicable to static analysis and not claimed. " + A, ref="4/C09"),
  "C11": dict(technique="effect-free-prefix guard rule, index provenance with backward demand, optional-callback guards, stale-index analysis",
    text="In each handler every effect site is behind that handler's admission condition (so inadmissible and duplicate inputs reach no effect); every index into a per-validator table is a range key, an admitted sender index, MyIndex under MyIndex>=0 or the primary index; optional callbacks only under their enabling fact; stored slots and the lazily built block objects dereferenced only when non-nil (defect D11, fixed); the primary formula in normal form; no stale derived index; every integer division has a divisor that cannot be zero (constant, array length, validator count under the documented contract, or a Config field refused by checkConfig when zero) and New hands out an instance only after checkConfig returned nil.",
@@ -58,7 +58,7 @@ CLAIMED = {
    text="Structural clauses of the bundled timer (private field roles are derived from Reset/Height/View and the field types on every run): Height()/View() report what Reset stored from its parameters; Reset stores start, duration, height, view on every path; C() selects the channel by whether a runtime timer is armed; sends on the immediate channel are drained first and only for a zero duration; Extend accumulates unconditionally, re-arms for total-elapsed from the stored start under total>elapsed and never leaves a pending expiry disarmed; NewTimer only after stop.",
    note="'Never early', 'within tolerance' and 'stale expiry never delivered' are real-time properties of time.Timer and channel races: not applicable to static analysis and not claimed. " + A, ref="4/C18"),
  "C19": dict(technique="encoder/decoder field agreement on enumerated paths, gob exported-field rule, constructor role tables, reconstruction agreement",
-   text="For every type with EncodeBinary/DecodeBinary each wire field is read by the encoder and assigned by the decoder on every successful path; gob structs have only exported fields; decoders propagate every error; the recovery message packs every kind and each Get* reconstruction uses the kind, body type and list of its arm and copies every body field, stamping the rebuilt proposal with the primary index; Payload.Hash is Hash256 of the unsigned encoding (and does not memoise while a body type can still be mutated through its interface); block Hash/Sign/Verify feed GetHashData without the signature; constructors use every parameter in its role; ECDSA Sign/Verify digest alike; Merkle parents hash left||right.",
+   text="For every type with EncodeBinary/DecodeBinary each wire field is read by the encoder and assigned by the decoder on every successful path; gob structs have only exported fields; decoders propagate every error; the wire struct does not narrow a field; variable-length byte fields are read with a fixed width only after a length check (defect D13, fixed); no interface result is a typed nil; the recovery message packs every kind and each Get* reconstruction uses the kind, body type and list of its arm and copies every body field, stamping the rebuilt proposal with the primary index; Payload.Hash is Hash256 of the unsigned encoding (and does not memoise while a body type can still be mutated through its interface); block Hash/Sign/Verify feed GetHashData without the signature; constructors use every parameter in its role; ECDSA Sign/Verify digest alike; Merkle parents hash left||right.",
    note="Collision resistance, ECDSA soundness, gob's robustness on arbitrary bytes, the Merkle odd-level duplication ambiguity and value-dependent panics on short inputs are not decided. " + A, ref="4/C19"),
  "C20": dict(technique="syntactic type inference and guard discipline over the SANY semantic tree (no model checking)",
    text="TypeOK is shown inductive for every MaxView and fault set by typing Init and every primed assignment reachable from Next against the shapes TypeOK declares (130 assignments in the five specs); InvFaultNodesCount follows from the membership guards on bad/dead and the ASSUME; for the no-fork invariant only structural necessary conditions are checked: in every alternative of each guard (negation-normal form with helper operators, IF, bounded quantifiers over literal sets and action parameters expanded) a commit/accept transition rests on an M-quorum of the right message kinds of the node's current view and a view increase on an M-quorum of ChangeView-kind messages or the leader's message; per-spec locks are decided by evaluating the guard with the node in the locked state (including integer CASE tables); F/M definitions; every action is linked into Next and launch-file invariants exist.",
